@@ -192,7 +192,7 @@ func (s scen) run(c *hx.Ctx) *hx.ScenarioResult {
 		w.Invoke(echo(3), nil)
 		sched.Finish()
 	}
-	return hx.ExploreScenario(c, "C02", s.name(), sched.Options{Bound: s.bound, MaxSteps: 100000, BoundAll: true, NoEarlyClock: true, HoldBack: s.kind == "platform-late-error", HoldLagNs: 150e6}, body, s.judge)
+	return hx.ExploreScenario(c, "C02", s.name(), sched.Options{Bound: s.bound, MaxSteps: 100000, BoundAll: true, NoEarlyClock: true, HoldBack: true, HoldLagNs: 150e6}, body, s.judge)
 }
 
 // slow: a second thread of the function (a process the platform does not kill) starts submitting the response
